@@ -27,6 +27,26 @@ func (q Quantizer) Validate() error {
 	}
 }
 
+// Checks that the quantizer can be built for an index with the given vector
+// size and distance metric, so that an unusable combination is refused when the
+// collection is created instead of failing every later request on the shard.
+func (q Quantizer) ValidateForVector(vectorSize uint, distanceMetric string) error {
+	if err := q.Validate(); err != nil {
+		return err
+	}
+	// Hamming and jaccard indices always use their own binary store
+	if q.Type != QuantizerProduct || distanceMetric == DistanceHamming || distanceMetric == DistanceJaccard {
+		return nil
+	}
+	if distanceMetric != DistanceEuclidean && distanceMetric != DistanceCosine && distanceMetric != DistanceDot {
+		return fmt.Errorf("distance metric %s is not supported for product quantization", distanceMetric)
+	}
+	if int(vectorSize)%q.Product.NumSubVectors != 0 {
+		return fmt.Errorf("vector size %d must be divisible by numSubVectors %d", vectorSize, q.Product.NumSubVectors)
+	}
+	return nil
+}
+
 type BinaryQuantizerParamaters struct {
 	// The threshold value for the binary quantizer. It is a pointer to distinguish
 	// between 0 value vs not set.
